@@ -63,6 +63,9 @@ var RecForms = []RecForm{
 	{Name: "repanic", Code: "defer func() {\n\t\tif r := recover(); r != nil {\n\t\t\tpanic(r)\n\t\t}\n\t}()", HasRecoveringDefer: true},
 	{Name: "twodefers", Code: "defer func() {}()\n\tdefer func() { _ = recover() }()", HasRecoveringDefer: true, MustSurvive: true},
 	{Name: "deferother", Code: "defer func() { rt.Nop() }()", MustDie: true},
+	{Name: "nestedliteral", Code: "func() {\n\t\tdefer func() { _ = recover() }()\n\t\trt.Nop()\n\t}()", MustDie: true},
+	{Name: "nestedliteralvar", Code: "guard$u := func(step func()) {\n\t\tdefer func() { _ = recover() }()\n\t\tstep()\n\t}\n\tguard$u(rt.Nop)", MustDie: true},
+	{Name: "deferinloop", Code: "for i$u := 0; i$u < 1; i$u++ {\n\t\tfunc() {\n\t\t\tdefer func() { _ = recover() }()\n\t\t}()\n\t}", MustDie: true},
 }
 
 // PanicCase is one (go form, recover form) combination.
